@@ -273,21 +273,38 @@ def concat(ctx):
   rr = ctx.func(SL + ':remove_redundant_data')
   # sibling idiom: an explicit table (container, value fields) compared field by field - every field of the event
   # type other than its time must be listed, or events that differ only in an unlisted field are dropped as repeats
-  tab = next((n for n in ast.walk(rr.node) if isinstance(n, ast.For) and isinstance(n.iter, (ast.List, ast.Tuple)) and n.iter.elts and
-              all(isinstance(e, ast.Tuple) and len(e.elts) == 2 and isinstance(e.elts[0], ast.Attribute) and isinstance(e.elts[1], (ast.Tuple, ast.List)) for e in n.iter.elts)), None)
+  def _container(x):
+    return x.attr if isinstance(x, ast.Attribute) else (x.value if isinstance(x, ast.Constant) and isinstance(x.value, str) else None)
+
+  def _fields(x):
+    if isinstance(x, (ast.Tuple, ast.List)) and all(isinstance(c, ast.Constant) and isinstance(c.value, str) for c in x.elts):
+      return [c.value for c in x.elts]
+    if isinstance(x, ast.Call) and (dotted(x.func) or '').endswith('attrgetter') and all(isinstance(c, ast.Constant) and isinstance(c.value, str) for c in x.args):
+      return [c.value for c in x.args]
+    return None
+
+  def _table(node):
+    # a display of (container, value fields) pairs, written in the loop header or bound once at module level
+    if isinstance(node, ast.Name) and len(rr.module.assigns.get(node.id, [])) == 1:
+      node = rr.module.assigns[node.id][0]
+    if isinstance(node, (ast.List, ast.Tuple)) and node.elts and all(
+        isinstance(e, ast.Tuple) and len(e.elts) == 2 and _container(e.elts[0]) is not None and _fields(e.elts[1]) is not None for e in node.elts):
+      return node
+    return None
+  tab = next((_table(n.iter) for n in ast.walk(rr.node) if isinstance(n, ast.For) and _table(n.iter) is not None), None)
   if tab is not None:
     ns = ctx.S.msg('NoteSequence')
-    for e in tab.iter.elts:
-      cont = e.elts[0].attr
+    for e in tab.elts:
+      cont = _container(e.elts[0])
       f = ns.fields.get(cont) if ns else None
       ctx.require(f is not None and f.kind == 'message', 'remove_redundant_data: %s is not a message field of NoteSequence' % cont)
       m = ctx.S.msg(f.type)
       want = sorted(k for k in m.fields if k != 'time')
-      got = sorted(x.value for x in e.elts[1].elts if isinstance(x, ast.Constant))
+      got = sorted(_fields(e.elts[1]))
       ok = got == want
       ctx.ob('CONCAT/cmp-all-fields', rr, e, ok, '%s events are compared in all their value fields %s' % (cont, want) if ok else
              '%s events are compared in %s only; the event type has the value fields %s, so an event differing only in %s is dropped as a repeat' % (
-                 cont, got, want, sorted(set(want) - set(got))), construct='remove_redundant_data: %s compared in all value fields' % cont)
+                 cont, got, want, sorted(set(want) - set(got))), construct='remove_redundant_data: %s compared in all value fields' % cont, definite=True)
     return
   rr = Canon(rr, roles.discover(rr, {
       'events': lambda fn: [n.target.id for n in ast.walk(fn) if isinstance(n, ast.For) and isinstance(n.iter, ast.List) and isinstance(n.target, ast.Name)],
